@@ -110,9 +110,15 @@ Definition store_sub (a b : vstore) : bool :=
      end) a.
 Definition store_eqb (a b : vstore) : bool := store_sub a b && store_sub b a.
 
-Definition reads_of (e : estate) (keys : list dkey) : list (dkey * vals) := map (fun k => (k, read e k)) keys.
-Definition reads_eqb (a b : list (dkey * vals)) : bool :=
-  list_eqb (fun x y => dkey_eqb (fst x) (fst y) && vals_eqb (snd x) (snd y)) a b.
+(** The driver reads every key of a fixed universe and lists the non-empty results. *)
+Definition universe : list dkey :=
+  flat_map (fun m => flat_map (fun s => map (fun f => (m, s, f)) [[97]; [98]; TIME]%N) [0; 1; 2; 3]%N)
+           [[109; 48]; [109; 49]]%N.
+Fixpoint rlookup (k : dkey) (l : list (dkey * vals)) : vals :=
+  match l with [] => [] | (k', vs) :: r => if dkey_eqb k' k then vs else rlookup k r end.
+Definition reads_match (obs : list (dkey * vals)) (f : dkey -> vals) : bool :=
+  forallb (fun k => vals_eqb (rlookup k obs) (f k)) universe &&
+  forallb (fun '(k, _) => existsb (dkey_eqb k) universe) obs.
 
 Record bobs := {
   bo_err : N; bo_dropped : N;
@@ -144,14 +150,14 @@ Fixpoint replay (vk : bool) (e : estate) (spec : vstore) (steps : list (list bpo
       let '(e', err, dr) := write_points vk e batch in
       let same := N.eqb (bo_err ob) err && N.eqb (bo_dropped ob) dr &&
                   schema_eqb (bo_schema ob) (e_schema e') && store_eqb (bo_raw ob) (e_cache e') &&
-                  reads_eqb (bo_reads ob) (reads_of e' (map fst (bo_reads ob))) in
+                  reads_match (bo_reads ob) (read e') in
       let acc := accepted vk (bo_schema ob) batch in
       let spec' := spec_store spec acc in
       let nrej := N.of_nat (length batch - length acc) in
       let ok := N.eqb (bo_dropped ob) nrej &&
                 (if (0 <? nrej)%N then N.eqb (bo_err ob) 1 else N.eqb (bo_err ob) 0 || N.eqb (bo_err ob) 1) &&
                 store_eqb (bo_raw ob) spec' &&
-                reads_eqb (bo_reads ob) (map (fun k => (k, spec_read (bo_schema ob) spec' k)) (map fst (bo_reads ob))) in
+                reads_match (bo_reads ob) (spec_read (bo_schema ob) spec') in
       let '(sm, okk, ef, sf) := replay vk e' spec' r in
       (same && sm, ok && okk, ef, sf)
   end.
@@ -162,7 +168,7 @@ Definition check (c : case) : verdict :=
   let sch := c_final_schema c in
   let last := match rev (c_steps c) with (_, ob) :: _ => bo_schema ob | [] => [] end in
   let same := sm && schema_eqb sch (e_schema er) && store_eqb (c_final_raw c) (e_cache er) &&
-              reads_eqb (c_final_reads c) (reads_of er (map fst (c_final_reads c))) in
+              reads_match (c_final_reads c) (read er) in
   let ok := okk && schema_eqb sch last && store_eqb (c_final_raw c) sf &&
-            reads_eqb (c_final_reads c) (map (fun k => (k, spec_read sch sf k)) (map fst (c_final_reads c))) in
+            reads_match (c_final_reads c) (spec_read sch sf) in
   judge same ok.
